@@ -818,12 +818,21 @@ func listDir(n *node) []os.FileInfo {
 		names = append(names, k)
 	}
 	sort.Strings(names)
+	if ReverseListings.Load() {
+		// a backend whose directory order is stable but not ascending by name (most real ones)
+		for i, j := 0, len(names)-1; i < j; i, j = i+1, j-1 {
+			names[i], names[j] = names[j], names[i]
+		}
+	}
 	out := make([]os.FileInfo, 0, len(names))
 	for _, k := range names {
 		out = append(out, mkinfo(k, n.children[k]))
 	}
 	return out
 }
+
+// ReverseListings makes every directory listing come back in descending name order.
+var ReverseListings atomic.Bool
 
 func (f *FS) ReadFile(name string) ([]byte, error) {
 	op := &Op{Name: "ReadFile", Path: name}
